@@ -170,6 +170,7 @@ def generate {ε} (s : St ε) : Except Err (Pattern ε) :=
 structure Ev (δ μ : Type) where
   data : δ
   rest : μ
+deriving DecidableEq
 
 /-- `BoboPredicateCallType` minus the user function.  `isInst d` = `isinstance(d, dtype)`,
 `isExact d` = `type(d) == dtype`, `cast d` = `dtype(d)` (`none` = raised TypeError/ValueError) are
